@@ -140,6 +140,41 @@ def run_group(g):
         res['error_text'] = str(ex)[:200]
     now = [b1, b2, wl, gr]
     res['inputs_unchanged'] = all(sc.identical(a, b, equal_nan=True) for a, b in zip(now, snap))
+    # history checks (see _histpass.py): the same call on the same objects, and after an in-place update of the operands
+    import _histpass
+
+    def call_with(e):
+        fn = g['fn']
+        if fn == 'sawg':
+            r = bl.scattering_angles_with_gravity(incident_beam=e['b1'], scattered_beam=e['b2'], wavelength=e['wl'], gravity=e['gr'])
+            return {'two_theta': r['two_theta'], 'phi': r['phi']}
+        if fn == 'yz':
+            return {'gamma': bl.scattering_angle_in_yz_plane(incident_beam=e['b1'], scattered_beam=e['b2'], wavelength=e['wl'], gravity=e['gr'])}
+        if fn == 'drop':
+            return {'drop': bl._drop_due_to_gravity(distance=sc.norm(e['b2']), wavelength=e['wl'], gravity=e['gr'])}
+        return {'two_theta': bl.two_theta(incident_beam=e['b1'], scattered_beam=e['b2'])}
+
+    def desc_all(o):
+        return {k: describe(v.bins.constituents['data'] if v.bins is not None else v) for k, v in o.items()}
+
+    try:
+        first = {'result': desc_all(call_with({'b1': snap[0].copy(), 'b2': snap[1].copy(), 'wl': snap[2].copy(), 'gr': snap[3].copy()}))}
+    except Exception as ex:
+        first = {'error': type(ex).__name__}
+    env = {'b1': snap[0], 'b2': snap[1], 'wl': snap[2], 'gr': snap[3]}
+    try:
+        first_same = {'result': desc_all(call_with(env))}
+    except Exception as ex:
+        first_same = {'error': type(ex).__name__}
+    hv = []
+    if not _histpass._same(first, first_same):
+        hv.append({'key': 'repeat-call-differs:' + g['fn'], 'what': g['fn'] + ': fresh copies of the same operands give another result',
+                   'replay': {'first': first, 'second': first_same}})
+    else:
+        hv = _histpass.checks(call_with, env, desc_all, first, 'gravity:' + g['fn'], sc)
+    for v in hv:
+        v['replay']['group'] = g
+    res['history_violations'] = hv
     return res
 
 
@@ -155,7 +190,12 @@ def main():
     for nm in ('h', 'm_n'):
         c = getattr(sc.constants, nm)
         consts[nm] = {'value': exact(c.value), 'unit': unit_info(c.unit)}
-    print('RESULT ' + json.dumps({'groups': out, 'constants': consts, 'scipp': sc.__version__}))
+    hv = []
+    for r in out:
+        for v in r.pop('history_violations', []):
+            if len(hv) < 5:
+                hv.append(v)
+    print('RESULT ' + json.dumps({'groups': out, 'constants': consts, 'scipp': sc.__version__, 'harness_violations': hv}))
 
 
 if __name__ == '__main__':
